@@ -273,6 +273,17 @@ def gen_xwr_shared(r):
     return out
 
 
+# forced compressor configurations (`<name>!`, `<name>!2`: compress; `<name>!u`: uncompress): level, gzip window, flags, then key=value
+FORCED_CFG = {
+    "gzip": [" 1 9 -", " 9 12 0x1f bs=131072"],
+    "xz": [" 1 - - dict=65536 lc=1 lp=2 pb=0", " 6 - 0x101 dict=12288 lc=0 lp=0 pb=4 bs=16384"],          # 0x101: x86 filter + extreme
+    "lzma": [" 1 - - dict=65536 lc=1 lp=2 pb=0", " 5 - 1 dict=12288 lc=4 lp=0 pb=1 bs=16384"],
+    "lz4": [" - - 1", " - - - bs=131072"],
+    "zstd": [" 2 - -", " 19 - - bs=16384"],
+}
+FORCED_U = {"gzip": " 3 - 0x0a", "xz": " 2 - 0x08 dict=16384 lc=2 lp=1 pb=1", "lzma": " 2 - 1 dict=16384 lc=2 lp=1 pb=1", "lz4": " - - 1 bs=16384", "zstd": " 7 - -"}
+
+
 class Scenario:
     def __init__(self, tag, kind, args, model_kind):
         self.tag, self.kind, self.args, self.model_kind = tag, kind, args, model_kind
@@ -312,20 +323,28 @@ def gen_scenario(ctx, tag, kind, imgs, sizes, variant=None):
     ending = None
     forced = False
     if kind == "comp":
-        forced = bool(variant) and variant.endswith("!")
-        name = (variant or r.choice(COMPS)).rstrip("!")
-        mode = "c" if forced else r.choice("ccu")
+        forced = bool(variant) and "!" in variant
+        name, _, fv = (variant or r.choice(COMPS)).partition("!")
+        mode = ("u" if fv == "u" else "c") if forced else r.choice("ccu")
         cfg = ""
         if forced:
-            # a configuration far from the defaults, and (below) level-sensitive data through the copy right after the copy:
-            # a copy hook that re-creates codec state from anything but the original's options compresses differently
-            cfg = {"gzip": " 1 9 -", "xz": " 1 - -", "lzma": " 1 - -", "lz4": " - - 1", "zstd": " 2 - -"}[name]
-        elif mode == "c" and r.random() < 0.7:
-            # non-default configuration: the copy must compress with the original's level / window / strategy flags
+            # configurations far from the defaults on every axis the compressor has (level, window, strategy / filter flags,
+            # dictionary size, lc/lp/pb, block size), in both modes, and (below) option-sensitive data through the copy right
+            # after the copy: a copy hook that re-creates its state from anything but the original's options answers differently,
+            # and the probe compares every option field
+            cfg = FORCED_U[name] if fv == "u" else FORCED_CFG[name][int(fv or 1) - 1]
+        elif r.random() < 0.7:
+            # non-default configuration: the copy must work with the original's options
             level = {"gzip": r.randint(1, 9), "xz": r.randint(0, 6), "lzma": r.randint(0, 6), "lz4": "-", "zstd": r.randint(1, 19)}[name]
-            window = r.randint(9, 15) if name == "gzip" else "-"
-            flags = {"gzip": r.choice(["-", "-", 0x03, 0x1f]), "lz4": r.choice(["-", 1]), "lzma": r.choice(["-", 1])}.get(name, "-")
+            window = r.randint(9, 15) if name == "gzip" and mode == "c" else "-"
+            flags = {"gzip": r.choice(["-", "-", 0x03, 0x1f]), "lz4": r.choice(["-", 1]), "lzma": r.choice(["-", 1]),
+                     "xz": r.choice(["-", 0x01, 0x02, 0x08, 0x20, 0x100, 0x110])}.get(name, "-")
             cfg = " %s %s %s" % (level, window, flags)
+            if name in ("xz", "lzma") and r.random() < 0.7:
+                lc = r.randint(0, 4)
+                cfg += " dict=%d lc=%d lp=%d pb=%d" % (r.choice([8192, 12288, 16384, 65536, 1 << 20]), lc, r.randint(0, 4 - lc), r.randint(0, 4))
+            if r.random() < 0.3:
+                cfg += " bs=%d" % r.choice([16384, 65536, 131072])
         args, mk = "comp %s %s%s" % (name, mode, cfg), name
     elif kind in ("idtable", "fragtable"):
         args, mk = kind, kind
@@ -1434,7 +1453,7 @@ def run(ctx):
     scs = []
     plan = []
     for c in COMPS:
-        plan += [("comp", c)] * max(3, per_kind // 4) + [("comp", c + "!")] * (1 if ctx.quick() else 10)
+        plan += [("comp", c)] * max(3, per_kind // 4) + [("comp", c + "!"), ("comp", c + "!2"), ("comp", c + "!u")] * (1 if ctx.quick() else 6)
     for kind in ("idtable", "fragtable", "file", "xwr"):
         plan += [(kind, None)] * per_kind
     plan += [("wfile", None)] * (3 if ctx.quick() else 20)
@@ -1478,6 +1497,17 @@ def run(ctx):
     for k, v in okcount.items():
         if v == 0:
             raise vlib.CheckFailure("no operation on a copied %s object succeeded in this run: the comparison with the twin says nothing" % k)
+    # per compressor and mode (compress / uncompress) and per forced configuration: a successful copy that then worked
+    comp_modes = {}
+    for s, (hans, _) in zip(scs, hres):
+        if s.kind == "comp" and any(a.startswith("copy ok") for a in hans) and any(l.startswith("c ") and re.match(r"blk [1-9]", a) for l, a in zip(s.lines, hans)):
+            w = s.args.split()
+            comp_modes[(w[1], w[2])] = comp_modes.get((w[1], w[2]), 0) + 1
+            comp_modes[(w[1], " ".join(w[3:]) or "default")] = comp_modes.get((w[1], " ".join(w[3:]) or "default"), 0) + 1
+    for c in COMPS:
+        for need in ["c", "u"] + [x.strip() for x in FORCED_CFG[c]] + [FORCED_U[c].strip()]:
+            if not comp_modes.get((c, need)):
+                raise vlib.CheckFailure("no successful, then working copy of a %s compressor in mode / configuration `%s`: %s" % (c, need, sorted(k for k in comp_modes if k[0] == c)))
     # hook descriptions against everything the probe saw
     dprob, dfacts = check_descriptions(ctx, scs, hres)
     for pr in dprob[:3]:
@@ -1560,6 +1590,7 @@ def run(ctx):
                     ", ".join("%s/%d" % sp for sp in specs), MANYX),
         "scenarios": len(allsc), "alloc_failure_variants": len(fscs), "twin_comparisons": pair_checks, "fresh_reader_comparisons": fresh_checks, "view_relations_checked": view_checks,
         "copies_ok": copies_ok, "copies_null": copies_null, "successful_operations_on_copies": okcount,
+        "compressor_copies_by_mode_and_configuration": {"%s %s" % k: v for k, v in sorted(comp_modes.items())},
         "table_answers_compared_with_model": ttotal, "copystate": cstat, "descriptions_vs_probe": dfacts,
         "scenarios_per_kind": stats["kinds"], "real_outcomes": stats["outcomes"], "classified": stats["findings"],
         "samples": [{"scenario": s.text()[:600], "exit": hr[1]} for s, hr in list(zip(allsc, allres))[:2] + list(zip(allsc, allres))[-1:]],
